@@ -12,7 +12,9 @@ impl Rng {
     fn below(&mut self, n: usize) -> usize { (self.next() % n as u64) as usize }
 }
 
-const ATOMS: [&str; 14] = ["a", "\n", "\r\n", "\r", "é", "☃", "😀", "\u{10000}", "", " ", "\u{7f}", "\u{80}", "\u{7ff}", "\u{ffff}"];
+const ATOMS: [&str; 22] = ["a", "\n", "\r\n", "\r", "é", "☃", "😀", "\u{10000}", "", " ", "\u{7f}", "\u{80}", "\u{7ff}", "\u{800}", "\u{ffff}",
+    // one character per UTF-8 lead-byte class of the supplementary planes (F0, F1, F2, F3, F4) and the last scalar value
+    "\u{3ffff}", "\u{40000}", "\u{80000}", "\u{e0100}", "\u{fffff}", "\u{100000}", "\u{10ffff}"];
 
 fn gen_text(rng: &mut Rng, n: usize) -> String {
     let mut s = String::new();
@@ -94,7 +96,7 @@ fn main() {
     let t0 = Instant::now();
     let mut tried = 0u64;
     // exhaustive: all texts of <= 4 atoms over a reduced alphabet
-    let small = ["a", "\n", "\r\n", "\r", "😀", "é"];
+    let small = ["a", "\n", "\r\n", "\r", "😀", "é", "\u{e0100}"];
     let mut all: Vec<String> = vec![String::new()];
     let mut frontier = vec![String::new()];
     for _ in 0..4 {
